@@ -52,7 +52,7 @@ for _pid, _why in [
 ]:
     na(_pid, _why)
 
-prop("C02", ["sql_prec", "static_eval", "operator_tpl", "rel_names", "lower_cols"],
+prop("C02", ["sql_prec", "static_eval", "operator_tpl", "rel_names", "lower_cols", "vec_utils"],
      not_covered="evaluation inside the database; dialect templates beyond the strengths they declare; sites that build SQL operands "
                  "without translate_operand (process_concat, process_array_in, try_into_between) are not yet under contract")
 claim("C02",
@@ -69,8 +69,8 @@ claim("C02",
       "Oracle = SQLite's documented precedence table (the executable grammar here). translate_expr is external (uninterpreted result, "
       "Context state not modelled); sqlparser enums are mechanically generated skeletons; sqlparser's Display is trusted to print trees as written.")
 
-prop("C01", ["split_order", "take_range", "operator_tpl"],
-     not_covered="anchor_split cid redirection, preprocess (distinct/union recognition), lowering, flattening: hash-map threaded folds over three "
+prop("C01", ["split_order", "take_range", "operator_tpl", "vec_utils"],
+     not_covered="anchor_split cid redirection, preprocess (distinct/union recognition), lowering, flattening, the other pluck call sites of translate_select_pipeline (select / sort / take / join): hash-map threaded folds over three "
                  "IRs; a violation there is invisible to these contracts")
 claim("C01",
       "PARTIAL (necessary conditions). Proved on the real functions, for all inputs: is_split_required never lets a transform share a SELECT "
@@ -80,7 +80,10 @@ claim("C01",
       "reorder() hoists a compute over a take only if it is row-local (RO1); composition of takes and LIMIT/OFFSET arithmetic (take_range); the "
       "empty-input values of the statement: translate_operator wraps an aggregate in COALESCE(.., default) exactly when its definition has an empty-input default and it "
       "is not used as a window function (TP2, TP3), and in every dialect module of std.sql.prql the effective definition of sum / any / all has the default 0 / FALSE / "
-      "TRUE and count is COUNT(*) without a default (rows CO.<dialect>.<fn>, read from the file on every run). "
+      "TRUE and count is COUNT(*) without a default (rows CO.<dialect>.<fn>, read from the file on every run); the WHERE / HAVING split of translate_select_pipeline: "
+      "WHERE is built from exactly the filters before the first aggregate / union of the SELECT's pipeline, HAVING from those after it, in pipeline order, no filter "
+      "left behind or lost (vec_utils WH1-4), on top of full contracts for the two helpers it uses - Vec::pluck is a stable partition by a fallible conversion "
+      "(PL1-2, loop invariant PLI, any length) and Vec::break_up cuts at the first match (BU1-3). "
       "NOT proved: the end-to-end sentence of C01 (semantic preservation of the whole compiler).",
       "Oracle: SQL's logical clause order. HashSet<String>, strum AsRefStr, contains_any, the filter/fold in can_materialize and "
       "infer_complexity_expr are trusted by contract; split_off_back's loop and anchor_split are not under contract.")
@@ -210,7 +213,7 @@ def _safety(name):
 
 
 _ALL_UNITS = ["take_range", "sort_take", "split_order", "window_frame", "dialect_select", "ident_quote", "ids_names", "toposort", "rq_tables",
-              "select_shape", "span_units", "sql_prec", "prql_prec", "literals", "set_ops", "desugar", "resolve_guards", "lex_strings", "limit_clause", "static_eval", "operator_tpl", "rel_names", "lower_cols"]
+              "select_shape", "span_units", "sql_prec", "prql_prec", "literals", "set_ops", "desugar", "resolve_guards", "lex_strings", "limit_clause", "static_eval", "operator_tpl", "rel_names", "lower_cols", "vec_utils"]
 prop("C12", _ALL_UNITS, select={u: _safety for u in _ALL_UNITS},
      not_covered="every function that is not under contract (~150 unwrap/expect sites, todo!() in type_intersection, panic!(cannot find cid) in lookup_cid), "
                  "recursion depth, chumsky, time bounds")
